@@ -143,7 +143,7 @@ pub fn subchecks(tier: Tier) -> Vec<SubCheck> {
     vec![generated(
         "format_roundtrip",
         "valid objects of the four plain types from run layouts (all 31 block sizes, lengths on the capacities); to_string = Display = String::from = reference formatter; len_in_str; MAX_LEN_IN_STR; parse back (== and full_eq); store_into_bytes with sentinel buffers (10% of cases: every length 0..=MAX+8); text -> type -> text with and without a comma tail; non-trivial = both block hashes non-empty; distinct by text",
-        tier.pick(40_000, 800_000),
+        tier.pick(300_000, 4_000_000),
         || strategy(0.1),
         eval,
     )]
